@@ -152,7 +152,8 @@ class IlluminaExonCorrector:
                                     right = x
                                     score = self.skipped_score(y, x, i)
                 # if the left intron has been changed the requirements have been fulfilled and a correction can happen
-                if not left == IlluminaExonCorrector.ABSENT_INTRON:
+                # (the pair must leave the neighbouring read exons in place: it lies inside the read)
+                if not left == IlluminaExonCorrector.ABSENT_INTRON and left[0] > exons[0][0] and right[1] < exons[-1][1]:
                     corrected_introns.append(left)
                     corrected_introns.append(right)
                     appended = True
